@@ -215,6 +215,7 @@ class Interp:
         self.modules = {}
         self.contracts = {}     # qualname -> python callable(interp, args, kwargs) -> value
         self.invariants = {}    # (qualname, loop ordinal) -> invariant object
+        self.loop_matchers = {}  # qualname -> [(predicate(st), invariant object)]: loops recognised by shape, not by position
         self.dropped = {}       # extraction bookkeeping: kind -> count
         self.builtins = {}
         self.call_depth = 0
@@ -456,8 +457,20 @@ class Interp:
                     out.append((fn.qual, kind, -1))
         return out
 
+    def matched_invariant(self, st):
+        fn = self.fn_stack[-1] if self.fn_stack else None
+        if fn is None:
+            return None
+        for pred, inv in self.loop_matchers.get(fn.qual, []):
+            if pred(st):
+                return inv
+        return None
+
     def st_For(self, st, env, in_class):
         key = self.loop_key(st)
+        inv = self.matched_invariant(st)
+        if inv is not None:
+            return inv.run_for(self, st, env, in_class)
         for tk in self.typed_loop_keys(st):
             if tk in self.invariants:
                 return self.invariants[tk].run_for(self, st, env, in_class)
@@ -480,6 +493,9 @@ class Interp:
 
     def st_While(self, st, env, in_class):
         key = self.loop_key(st)
+        inv = self.matched_invariant(st)
+        if inv is not None:
+            return inv.run_while(self, st, env, in_class)
         for tk in self.typed_loop_keys(st):
             if tk in self.invariants:
                 return self.invariants[tk].run_while(self, st, env, in_class)
@@ -820,10 +836,28 @@ class Interp:
             return None
         g = e.generators[0]
         env = self.comp_snapshot(e, env)
-        if g.ifs and not isinstance(g.iter, ast.Name):
+        pure_range = isinstance(g.iter, ast.Call) and isinstance(g.iter.func, ast.Name) and g.iter.func.id == "range" and \
+            all(isinstance(n, (ast.Name, ast.Constant, ast.Call, ast.Attribute, ast.BinOp, ast.Load, ast.operator)) and
+                (not isinstance(n, ast.Call) or (isinstance(n.func, ast.Name) and n.func.id in ("range", "len")))
+                for a_ in g.iter.args for n in ast.walk(a_))
+        if g.ifs and not (isinstance(g.iter, ast.Name) or pure_range):
             return None
         src = self.eval(g.iter, env)
         from .heap import SortedPerm, SymObjList, FilteredArr
+        if g.ifs and isinstance(src, SymArr) and src.items is None and getattr(src, "is_range", False) and isinstance(g.target, ast.Name):
+            # [f(i) for i in range(n) if cond(i)] with a symbolic n: kept as (n, f, cond); aggregates and pointwise reads only
+            nm1 = g.target.id
+
+            def elem_r(i):
+                env2 = Env({nm1: src.at(i)}, env, env.module)
+                env2.comp_scope = True
+                return self.merged_eval(lambda: self.eval(e.elt, env2))
+
+            def cond_r(i):
+                env2 = Env({nm1: src.at(i)}, env, env.module)
+                env2.comp_scope = True
+                return bterm(self.merged_eval(lambda: mkbool(band(*[bterm(mkbool(self.truth_term(self.eval(cc, env2)))) for cc in g.ifs]))))
+            return FilteredArr(src.length, elem_r, cond_r), src
         if isinstance(src, SymObjList):
             if not isinstance(g.target, ast.Name):
                 raise Unsupported("comprehension over a symbolic record list needs a simple target")
@@ -840,7 +874,13 @@ class Interp:
                     env2.comp_scope = True
                     return bterm(self.merged_eval(lambda: mkbool(band(*[bterm(mkbool(self.truth_term(self.eval(cc, env2)))) for cc in g.ifs]))))
                 return FilteredArr(src.length, elem_o, cond_o), src
-            probe = elem_o(z3.Int(ctx().fresh("cprobe")))
+            pi0 = z3.Int(ctx().fresh("cprobe"))
+            with ctx().scope():
+                ctx().assume(z3.And(pi0 >= 0, pi0 < zi(src.length)))
+                try:
+                    probe = elem_o(pi0)
+                except PathInfeasible:
+                    probe = XR.const(0)
             kind = "bool" if isinstance(probe, (bool, SBool)) else ("int" if isinstance(probe, (int, SInt)) else "xr")
             r = SymArr(src.length, elem_o, kind)
             r.is_list = True
@@ -875,7 +915,14 @@ class Interp:
             env2.comp_scope = True
             return self.eval(elt, env2)
 
-        probe = elem(z3.Int(ctx().fresh("cprobe")))
+        pi = z3.Int(ctx().fresh("cprobe"))
+        with ctx().scope():
+            # the probe position (used only to learn the element kind) lies within the sequence
+            ctx().assume(z3.And(pi >= 0, pi < zi(src.length)))
+            try:
+                probe = elem(pi)
+            except PathInfeasible:        # the sequence is empty on this path
+                probe = XR.const(0)
         kind = "bool" if isinstance(probe, (bool, SBool)) else ("int" if isinstance(probe, (int, SInt)) else "xr")
         r = SymArr(src.length, elem, kind)
         r.is_list = True
